@@ -435,7 +435,8 @@ def bounds(tier):
         "A": {"max_nodes": p["A_nodes"], "max_children": 3, "max_depth": 3, "leaves": p["A_leaves"],
               "key_schemes": ["json/str", "python/str", "python/int+str"]},
         "B1": {"max_elements": p["K"], "element_alphabet": p["E"], "extra_5_element_alphabet": p["E5"],
-               "one_line_window": p["win200"], "per_line_window": p["win150"], "sweep_kinds": p["sweep_kinds"]},
+               "one_line_window": p["win200"], "per_line_window": p["win150"], "sweep_kinds": p["sweep_kinds"],
+               "numeric_sweep_contexts": "top, D, L"},
         "B2": {"max_entries": p["Kdict"], "value_alphabet": p["Edict"], "sweep": ["value", "key"]},
         "B3": {"patterns": COUNT_PATTERNS, "copies": [1, p["count_max"]]},
         "B4": LONG_CASES, "S": SCALARS,
@@ -532,6 +533,8 @@ def shards(tier):
     nctx = len(p["ctx"])
     for c in range(nctx):
         for kind in p["sweep_kinds"]:
+            if kind == "i" and c > 2:
+                continue      # the numeric sweep element only at offsets 0 and 2
             for k in range(1, p["K"] + 1):
                 for pos in range(k):
                     if k == p["K"]:
